@@ -21,6 +21,7 @@ type Config struct {
 	Symmetry     bool
 	NoSleepSets  bool
 	QueryTimeout int
+	CrossCheck   int // per worker and harness: how many unsat assertion verdicts are re-asked to cvc5
 }
 
 type Engine struct {
@@ -187,6 +188,9 @@ type Exec struct {
 	newWorkModels []map[string]uint64
 	cacheHits     int
 	curKind       string
+	solver2       *Solver
+	crossBudget   *int
+	crossChecked, crossUnknown, crossDisagree int
 	rangeExcluded int
 	timerObjs     map[*Cell]*Timer
 	assertInherited int
